@@ -641,6 +641,29 @@ def field_span_rule(run, R="SPAN"):
               "fields::parse stores a field with a span that is not its own name token (%s): an unknown or duplicate field would be reported on another line of the block" % ("; ".join(bad) or "no AstField built"))
 
 
+def field_errors_rule(run, R="SPAN"):
+    """errors about one field of a `{...}` block (invalid, duplicate) are located at that field: the span given is the field's own
+    span (or its name token); only `missing field` - which has no field to point at - is located at the block"""
+    from rules_sym import deep
+    n, bad = 0, []
+    for f in run.prog.real_fns():
+        if "asm::parser::fields" not in f.id:
+            continue
+        for bi, t in f.calls():
+            c = t.get("resolved") or t.get("callee") or ""
+            if not c.endswith("Report::error_span") or len(t["args"]) < 3:
+                continue
+            m = deep(f, t["args"][1], 5)
+            sp = deep(f, t["args"][2], 6)
+            if "missing field" in m:
+                continue
+            n += 1
+            if re.fullmatch(r"P\d+\.span", sp) or "Span::join(" in sp:
+                bad.append("%s: `%s` located at `%s`" % (f.loc(t["span"]), re.sub(r"[^ -~]", "", m)[-40:], sp[:60]))
+    run.check(n >= 2 and not bad, R, R + "|field|errors-at-field", "-", "errors about a single field are located at that field (%d site(s))" % n,
+              "an error about a single field is located at the whole block (%s): an invalid or duplicate field would be reported on the block's first line" % ("; ".join(bad) or "sites not found"))
+
+
 def src_bind(run):
     """line/column and excerpts are computed against the text of the file the span names: in diagn::report every
     CharCounter is built from fileserver.get_str*(<that span's file_handle>)"""
@@ -859,3 +882,26 @@ def match_text_rule(run, R="SRC"):
             run.check(ok, R, "%s|match-text|%s" % (R, root), f.loc(t["span"]), "%s matches an instruction's own text at its own span" % root.rsplit("::", 1)[-1],
                       "%s hands the matcher the text `%s` to be located at `%s`: offsets into a text that is not what stands at that span give argument locations that cover other text (and can end inside a multi-byte character)" % (root, (text or ["?"])[0][:90], (span or ["?"])[0][:60]))
     run.floor(R, "calls of the matcher", n, 2)
+
+
+def expected_at_cursor(run, R="SPAN"):
+    """sibling agreement of the syntax errors: `expected <something>` raised by the token walker and by the expression parser is
+    located at the cursor -- where the missing thing should have stood, on the faulty line -- not at whatever token comes next"""
+    from rules_sym import deep
+    n, bad = 0, []
+    for f in run.prog.real_fns():
+        if not (f.id.startswith("syntax::walker::") or f.id.startswith("expr::parser::")):
+            continue
+        for bi, t in f.calls():
+            c = t.get("resolved") or t.get("callee") or ""
+            if not c.endswith("Report::error_span") or len(t["args"]) < 3:
+                continue
+            m = deep(f, t["args"][1], 5)
+            if "expe" not in m[:70]:
+                continue
+            n += 1
+            sp = deep(f, t["args"][2], 5)
+            if not re.fullmatch(r"Walker::get_cursor_span\(P1(\.walker)?\)", sp):
+                bad.append("%s locates it at `%s`" % (f.loc(t["span"]), sp[:80]))
+    run.check(n >= 3 and not bad, R, R + "|expected|at-cursor", "-", "`expected ...` syntax errors are located at the cursor (%d site(s))" % n,
+              "an `expected ...` syntax error is not located at the cursor (%s): with the expected thing missing at the end of a line, the error would be reported on a later line" % ("; ".join(bad) or "sites not found"))
